@@ -69,4 +69,12 @@ def oracle_c18(c):
             if o["uid"] in seen:
                 fails.append(("response-consumed-twice", "response frame %d consumed by calls %d and %d" % (o["uid"], seen[o["uid"]], o["t"])))
             seen[o["uid"]] = o["t"]
+    col = c.get("collision")
+    if col:
+        by_t = {o["t"]: o for o in c["outcomes"]}
+        if col.get("new_request_reached_server"):
+            fails.append(("request-sent-under-pending-id", "request id %d was still pending for call %d when call %d was given the same id; its request went out under that id" % (
+                col["pending_id"], col["pending_tid"], col["new_tid"])))
+        elif by_t[col["new_tid"]]["code"] == 0:
+            fails.append(("request-sent-under-pending-id", "call %d succeeded under the id %d of the pending call %d" % (col["new_tid"], col["pending_id"], col["pending_tid"])))
     return fails
